@@ -5,3 +5,5 @@ import Bw.Props.C07
 #print axioms Bw.Props.C07.ku_first
 #print axioms Bw.Props.C07.blank_not_key
 #print axioms Bw.Props.C07.nonmatching_not_key
+#print axioms Bw.Props.C07.ku_block_iff
+#print axioms Bw.Props.C07.ku_block_viol
